@@ -151,6 +151,11 @@ SEQUENCED = [
     "{ RdV = RsV ? ({ RxV = 1; RyV = 2; ReV = 3; RxV; }) : 5; }", "{ RdV = ({ RxV = 1; if (RsV) { RyV = 2; } ReV = 3; RxV; }); }", "{ ({ RdV = 1; RxV = 2; RyV = 3; }); }", "{ ({ RdV = 1; RxV = 2; }); ReV = 3; }",
     "{ RdV = 1; ; ; RxV = 2; }", "{ int32_t t = RsV; int32_t u = t + 1; RdV = u; }", "{ RxV += RsV; RxV -= RtV; RxV <<= 1; }",
 ]
+# every kind of expression as the step (and as the initialiser) of a for loop, in several positions
+STEPS = ["i++", "i--", "i += 2", "i = i + 1", "i <<= 1", "i = RsV", "RxV = i", "i -= 1", "i = clz32(i)", "i = ({ RyV = i; i + 1; })"]
+for _st in STEPS:
+    SEQUENCED += ["{ for (i = 1; i < 4; %s) { RdV = i; } }" % _st, "{ if (RsV) { for (i = 1; i < 4; %s) RdV = i; } else { RdV = 0; } }" % _st,
+                  "{ for (i = 1; i < 8; %s) { for (j = 0; j < 2; j++) { ReV = i; } } RdV = i; }" % _st, "{ for (%s; i < 4; i++) { RdV = i; } }" % _st.replace("i++", "i = 0").replace("i--", "i = 3")]
 
 
 def seq_work(text):
